@@ -150,7 +150,14 @@ func zerologStub(fn *ssa.Function) intrFn {
 	if isLogger && (name == "GetLevel" || name == "Level") {
 		return nil // interpreted from the real SSA
 	}
+	isContext := strings.HasSuffix(recv, "zerolog.Context")
 	return func(m *Machine, fr *Frame, args []Value, call ssa.Instruction, isDefer bool) (Value, int) {
+		if isLogger && name == "With" {
+			return Struct{F: []Value{args[0]}}, 1 // Context{l}
+		}
+		if isContext && name == "Logger" {
+			return args[0].(Struct).F[0], 1
+		}
 		if isLogger {
 			lvl := -100
 			var lvlT *T
